@@ -12,7 +12,7 @@ func genC05(g *genCtx) {
 	pool := docPool(r, plainProfile, 4, 1, 40, 14)
 	fixed := []string{"string-join(//a, ',')", "string-join(//*/@k, '-')", "ancestor::a = '1x'", "(//b)[1] = //b", "//b[ancestor::a]", "count(//a[b])",
 		"matches(string(//a), 'a|b')", "replace('abc', 'b', 'x')", "//a[matches(., '1')]", "//*[following::b]", "//a | //b", "sum(//@k) > 1", "//a[last()]", "normalize-space(//a)",
-		"concat(//a, //b)", "//a[position() < 3]/b", "reverse(//a)", "//*[preceding::a]", "//*[descendant::a/descendant::b]",
+		"concat(//a, //b)", "//a[position() < 3]/b", "reverse(//a)", "count(reverse(//a))", "string-join(reverse(//a), ',')", "sum(reverse(//@k))", "string(reverse(//*))", "concat(reverse(//a), reverse(//b))", "//*[preceding::a]", "//*[descendant::a/descendant::b]",
 		"//*[matches(string(@k), string(@m))]", "//*[matches(local-name(), concat(local-name(..), '|a'))]", "count(//*[matches(., local-name())])",
 		"//*[replace(local-name(), local-name(..), 'x') = 'x']", "replace(string(//a), local-name(//*[2]), '-')", "//*[matches(local-name(), @a)]",
 		"//*[matches('abc', concat('a', local-name()))]", "string-join(//*[matches(local-name(), 'a|b')], ',')", "//*[*][last()]", "*[*][last()]"}
@@ -178,6 +178,9 @@ func genC06(g *genCtx) {
 			g.add(&Case{Kind: "compile", Expr: e, Extra: "deep"})
 		}
 	}
+	// Compile consults the pattern cache for constant patterns: histories of compilations over a small cache (filled,
+	// reset, failing patterns) — every one of them has to return
+	genRxCache(g, g.scale(300, 3000))
 }
 
 var soupTokens = []string{"a", "b", "p:a", "*", "@", "k", ".", "..", "/", "//", "[", "]", "(", ")", ",", "|", "+", "-", "=", "!=", "<", "<=", ">", ">=", "and", "or", "div", "mod",
@@ -464,7 +467,13 @@ func genC16(g *genCtx) {
 
 // ---- C17: damage operators on valid expressions ----
 func genValidForDamage(r *rng) string {
-	switch r.intn(8) {
+	switch r.intn(10) {
+	case 8:
+		// a filter expression (parenthesised, with or without predicates) continued by a path
+		return "(" + r.pick([]string{genPathPF(r, 2, nodeTests), "a | b", "//a", genFilteredPath(r, 0)}) + ")" + r.pick([]string{"", "[1]", "[last()]", "[@k]", "[1][@k]"}) +
+			r.pick([]string{"/", "//"}) + genRelPath(r)
+	case 9:
+		return "(" + genPathPF(r, 1, nodeTests) + ")/" + r.pick(nodeTests) + r.pick([]string{"", " | a", " = 1", "[1]"})
 	case 0:
 		return genFilteredPath(r, 1)
 	case 1:
